@@ -216,3 +216,10 @@ Theorem b64_encode_source_fits_its_size : forall l fuel, bytes_ok l = true -> (l
              Z.of_nat (length ws) = ST.Gen.Leaf.src_b64_encode_size (Z.of_nat (length l)).
 Proof. exact ST.Codec.SourceFit.b64_encode_source_is_rfc. Qed.
 Print Assumptions b64_encode_source_fits_its_size.
+
+Theorem hex_encode_source_fits_its_size : forall l fuel, bytes_ok l = true -> (length l < fuel)%nat ->
+  (Z.of_nat (length l) < 2 ^ 62)%Z ->
+  exists ws, ST.Gen.Leaf.src_hex_encode fuel (ST.Codec.LoopBridge.arrb l) (Z.of_nat (length l)) = Some ws /\
+             map Z.to_N ws = hex_spec l /\ length ws = (2 * length l)%nat.
+Proof. exact ST.Codec.SourceFit.hex_encode_source_is_spec. Qed.
+Print Assumptions hex_encode_source_fits_its_size.
